@@ -71,4 +71,4 @@ func genManifest() {
 }
 
 // fix: commits in /repo (none are hooks)
-var sourceCommits = []string{"8af37d4", "9155039", "92244d8", "70428c2", "53c158b"}
+var sourceCommits = []string{}
